@@ -77,11 +77,11 @@ def r3_progress(chk, repo):
 
     def emptiness(test):
         """which edge of this test means 'no datagram was collected'"""
-        if match(f"not {lname}", test) is not None or match(
-                f"len({lname}) == 0", test) is not None:
+        if match(f"not @{lname}", test) is not None or match(
+                f"len(@{lname}) == 0", test) is not None:
             return "true"
-        if match(lname, test) is not None or match(
-                f"len({lname}) > 0", test) is not None:
+        if match("@" + lname, test) is not None or match(
+                f"len(@{lname}) > 0", test) is not None:
             return "false"
         return None
     appids = {n.id for n in appends}
@@ -366,8 +366,8 @@ def r3(chk, repo):
         for t in tests:
             st = t.stmt
             if isinstance(st, ast.If):
-                br = st.body if match(f"not {lname}", st.test) is not None \
-                    or match(f"len({lname}) == 0", st.test) is not None \
+                br = st.body if match(f"not @{lname}", st.test) is not None \
+                    or match(f"len(@{lname}) == 0", st.test) is not None \
                     else st.orelse
                 if find("$f.set_exception($e)", br):
                     body_ok = True
